@@ -12,6 +12,11 @@ def genFacts : Facts :=
     specDefault := Generated.cliSpecDefault
     targetLoaders := Generated.cliTargetLoaders
     targetDefault := Generated.cliTargetDefault
-    indentDefault := Generated.cliIndentDefault }
+    indentDefault := Generated.cliIndentDefault
+    loadCatch := Generated.cliLoadCatch
+    loaderRaises := Generated.cliLoaderRaises
+    specReadCatch := Generated.cliSpecReadCatch
+    targetReadCatch := Generated.cliTargetReadCatch
+    stdinReadCatch := Generated.cliStdinReadCatch }
 
 end Glom.C19
